@@ -161,7 +161,7 @@ macro "jeq_leaf" : tactic =>
     | (simp only [wrapI] at *; omega)
     | (exfalso; linarith)
     | (exfalso; exact absurd (le_antisymm (by assumption) (by assumption)) (by assumption))
-    | ((with_reducible apply JRel.value_eq) <;> first | norm_num | (norm_num; ring) | (field_simp; ring) | (simp_all; done)))
+    | ((with_reducible apply JRel.value_eq) <;> first | ring1 | norm_num | (norm_num; ring) | (field_simp; ring) | (simp_all; done)))
 
 /-- positivity of a Java result: split the guards of the Java definition, close the leaves -/
 macro "jpos_auto" : tactic =>
@@ -411,12 +411,33 @@ theorem JRelI.loop_then {σ : Type} (P : σ → Prop) {lo hi : Int} {init : σ} 
   · rw [hj, hc]; exact JRelI.nf
   · rw [hc]; exact JRelI.ub
 
+/-- a Java computation that ends with a value or an `IllegalArgumentException` — i.e. neither a stop of the model at a non-finite double
+operation (`JStop.nf`: the real Java goes on with Infinity/NaN, so nothing can be said about what follows a `try { } catch` around it)
+nor an `ArrayIndexOutOfBounds`/`NullPointerException` (which `catch (IllegalArgumentException e)` does not catch) -/
+def JTame {β : Type} (j : JM β) : Prop := (∃ v, j = Except.ok v) ∨ (∃ m, j = Except.error (.iae m))
+theorem JTame.ok {β : Type} {a : β} : JTame (Except.ok a : JM β) := Or.inl ⟨a, rfl⟩
+theorem JTame.pure {β : Type} {a : β} : JTame (Pure.pure a : JM β) := Or.inl ⟨a, rfl⟩
+theorem JTame.iae {β : Type} {m : String} : JTame (Except.error (.iae m) : JM β) := Or.inr ⟨m, rfl⟩
+theorem JTame.throw_iae {β : Type} {m : String} : JTame (throw (JStop.iae m) : JM β) := Or.inr ⟨m, rfl⟩
+theorem JTame.bind {β γ : Type} {m : JM β} {f : β → JM γ} (hm : JTame m) (h : ∀ a, JTame (f a)) : JTame (m >>= f) := by
+  rcases hm with ⟨v, hv⟩ | ⟨x, hx⟩
+  · subst hv; exact h v
+  · subst hx; exact Or.inr ⟨x, rfl⟩
+theorem JTame.ite {β : Type} {c : Prop} [Decidable c] {a b : JM β} (ha : JTame a) (hb : JTame b) : JTame (if c then a else b) := by
+  split_ifs <;> assumption
+theorem JTame.of_eq_ok {β : Type} {j : JM β} {v : β} (h : j = Except.ok v) : JTame j := h ▸ JTame.ok
+/-- `try { x = f(); } catch (IllegalArgumentException e) { }` around a tame call always yields a value -/
+theorem JTame.jtry_val {j : JM ℝ} {d : ℝ} (h : JTame j) : ∃ v, jtry (do let r ← j; Pure.pure r) (Pure.pure d) = Except.ok v := by
+  rcases h with ⟨v, hv⟩ | ⟨x, hx⟩
+  · subst hv; exact ⟨v, rfl⟩
+  · subst hx; exact ⟨d, rfl⟩
+
 /-! ## automation for the intermediate relation `JRelI` -/
 macro "jeqi_leaf" : tactic =>
   `(tactic| first
     | with_reducible exact JRelI.value | with_reducible exact JRelI.fail | with_reducible exact JRelI.fail_e | with_reducible exact JRelI.ub
     | with_reducible exact JRelI.nf
-    | ((with_reducible apply JRelI.value_eq) <;> first | norm_num | (norm_num; ring) | (field_simp; ring) | (simp_all; done))
+    | ((with_reducible apply JRelI.value_eq) <;> first | ring1 | norm_num | (norm_num; ring) | (field_simp; ring) | (simp_all; done))
     | omega
     | (simp only [wrapI] at *; omega)
     | (exfalso; linarith)
